@@ -40,6 +40,15 @@ def gen(rng, tier):
         prof = rng.choice(["mixed", "mixed", "readers", "writers"])
         cases.append({"args": [k, gen_script(rng, 5 if quick else 6, 3 if quick else 5, prof)],
                       "env": sched_env(rng, budget=400000)})
+    # crowds: one writer holds the lock while more than 1024 readers (or a few hundred writers and
+    # readers) queue up behind it on one kernel thread; its unlock must admit every one of them
+    for nread, nwrite in ([(1030, 0), (300, 40)] if quick else [(1030, 0), (1100, 3), (300, 40), (1025, 1), (600, 300)]):
+        fibers = ["w,u"] + ["r,u"] * nread + ["w,u"] * nwrite
+        tail = fibers[1:]
+        rng.shuffle(tail)
+        # the scheduler starts freshly created fibers last-created-first: the holder goes last
+        cases.append({"args": [1, "|".join(tail + fibers[:1])], "timeout": 600,
+                      "env": {"VR_SEED": rng.randrange(1, 1 << 30), "VR_SCHED": "rr", "VR_BUDGET": 30000000, "VR_MAXEV": 8000000}})
     return cases
 
 
@@ -50,6 +59,17 @@ def gen_word(rng, tier):
     plus random words with large fields."""
     words = [(wl, rc, wr, ww) for wl in (0, 1) for rc in (0, 1, 2) for wr in (0, 1, 3) for ww in (0, 1, 2)]
     big = [(1 << 21) - 2, (1 << 20) + 7, 5, 0, 1]
+    # every field at the boundaries a narrowed field or mask would have (2^k - 1, 2^k, 2^k + 1), one
+    # field at a time, with and without the other fields set
+    for kbits in ([7, 8, 10, 11, 12, 15, 16, 20] if tier != "thorough" else range(2, 21)):
+        for v in ((1 << kbits) - 1, 1 << kbits, (1 << kbits) + 1):
+            for wl in (0, 1):
+                words.append((wl, v, 0, 1))
+                words.append((wl, 0, v, 0))
+                words.append((wl, 1, v, 1))
+                if v < (1 << 20):
+                    words.append((wl, 0, 0, v))
+                    words.append((wl, 2, 1, v))
     for _ in range(n_cases(tier, 8, 200)):
         # waiting_writers stays below 2^20: values with bit 63 set are logged as signed by the runtime
         words.append((rng.choice([0, 1]), rng.choice(big), rng.choice(big), rng.choice(big[1:])))
